@@ -307,3 +307,9 @@ def test_fixed_F28_undiscounted_evaluation_with_weights_whose_float_sum_is_below
     pol = TabularPolicy.from_state_action_lists(state_list=m.state_list, action_list=m.action_list,
                                                 data=np.array([[0.2, 0.7, 0.1], [0.2, 0.7, 0.1]]))
     assert float(pol.evaluate_on(m).state_value[0]) == float('-inf')
+
+
+def test_fixed_F30_returns_with_an_integer_discount():
+    from msdm.core.mdp.policy import Policy
+    assert [float(x) for x in Policy.calc_returns([-1, -2, -3, 0], 1)] == [-6.0, -5.0, -3.0, 0.0]
+    assert [float(x) for x in Policy.calc_returns([-1, -2], np.int64(1))] == [-3.0, -2.0]
